@@ -75,9 +75,9 @@ class NodeVocab:
         world.py_in_hooks = getattr(world, "py_in_hooks", []) + [py_in]
         world.consts["ASTNode"] = VU(z3.Const("ASTNode_cls", C), self.CLS)
         sf = world.spec_fns
-        sf["reg_get"] = lambda m, k: VOpt(z3.Select(m.term, k.term), self.REG.opt)
-        sf["reg_remove"] = lambda m, k: VMap(z3.Store(m.term, k.term, self.REG.opt.none().term), self.REG)
-        sf["reg_set"] = lambda m, k, v: VMap(z3.Store(m.term, k.term, self.REG.opt.some(v).term), self.REG)
+        sf["reg_get"] = lambda m, k: VOpt(z3.Select(m.term, STR.coerce(k).term), self.REG.opt)
+        sf["reg_remove"] = lambda m, k: VMap(z3.Store(m.term, STR.coerce(k).term, self.REG.opt.none().term), self.REG)
+        sf["reg_set"] = lambda m, k, v: VMap(z3.Store(m.term, STR.coerce(k).term, self.REG.opt.some(v).term), self.REG)
         sf["registered"] = lambda m, n: VBool(z3.Select(m.term, self.f_id(self.REF.coerce(n).term)) == self.REG.opt.some(self.REF.coerce(n)).term)
         sf["cls_of"] = lambda n: VU(self.cls_of(self.ref(n)), self.CLS)
         sf["subclass"] = lambda a, b: VBool(self.subclass(a.term, b.term))
